@@ -1,6 +1,7 @@
 #!/bin/bash
 # try_mutant.sh <property> <patch.diff> [tier]: apply a seeded change to /repo, run the check, undo it
 id=$1; patch=$2; tier=${3:-quick}
+mkdir -p /tmp/mut
 cd /repo || exit 2
 git apply "$patch" || { echo "patch does not apply"; exit 2; }
 cd /verif
